@@ -21,8 +21,9 @@ EXTENDS Naturals, FiniteSets, TLC
 CONSTANTS TlsOn, AuthOn, KF_FlagsSurviveTls, KF_BufferSurvivesTls, KF_BareArg421, KF_PlainAuthNoTls
 
 Cmds == {"EHLO", "HELO", "MAIL", "RCPT", "DATA", "content", "RSET", "NOOP", "QUIT", "UNKNOWN", "STARTTLS", "AUTH"}
-Forms == {"ok", "malformed", "bare"}            \* "bare": AUTH / MAIL / RCPT without any argument
-Verdicts == {0, 450, 550, 421}                  \* what the application's validator answers
+Forms == {"ok", "malformed", "bare", "badparam"} \* "bare": AUTH / MAIL / RCPT without any argument; "badparam": MAIL with a
+                                                \* well-formed path and an unusable parameter (SIZE=abc): checked after the order
+Verdicts == {0, 450, 550, 421, 535}                \* what the application's validator answers
 
 VARIABLES ban, helo, mail, rcpt, indata, over, last,
           enc,        \* the session is encrypted
@@ -65,9 +66,10 @@ Mail == \E form \in Forms, v \in Verdicts :
   IF form = "bare" THEN Done("MAIL", form, {}, BareCode) /\ Keep /\ KeepX
   ELSE IF form = "malformed" THEN Done("MAIL", form, {}, 501) /\ Keep /\ KeepX
   ELSE IF ~helo \/ mail THEN Done("MAIL", form, {}, 503) /\ Keep /\ KeepX
+  ELSE IF form = "badparam" THEN Done("MAIL", form, {}, 501) /\ Keep /\ KeepX
   ELSE LET code == Code(v, 250) IN
        /\ Done("MAIL", form, {"MAIL"}, code) /\ mail' = (code = 250) /\ UNCHANGED <<ban, helo, rcpt, indata>> /\ KeepX
-Rcpt == \E form \in Forms, v \in Verdicts :
+Rcpt == \E form \in Forms \ {"badparam"}, v \in Verdicts :
   IF form = "bare" THEN Done("RCPT", form, {}, BareCode) /\ Keep /\ KeepX
   ELSE IF form = "malformed" THEN Done("RCPT", form, {}, 501) /\ Keep /\ KeepX
   ELSE IF ~mail THEN Done("RCPT", form, {}, 503) /\ Keep /\ KeepX
@@ -110,11 +112,11 @@ StartTls == \E form \in {"ok", "malformed"}, v \in Verdicts, hs \in {"done", "fa
 
 (* AUTH: `plain` - the mechanism sends the secret in clear (PLAIN, LOGIN); form "malformed" stands for bad base64,
    a cancelled exchange and an unknown mechanism. *)
-Auth == \E form \in Forms, v \in Verdicts, plain \in BOOLEAN :
+Auth == \E form \in Forms \ {"badparam"}, v \in Verdicts, plain \in BOOLEAN, mcode \in {501, 504} :
   IF ~authoff THEN DoneP("AUTH", form, {}, 500, plain) /\ Keep /\ KeepX
   ELSE IF ~helo \/ authed \/ mail THEN DoneP("AUTH", form, {}, 503, plain) /\ Keep /\ KeepX
   ELSE IF form = "bare" THEN DoneP("AUTH", form, {}, BareCode, plain) /\ Keep /\ KeepX
-  ELSE IF form = "malformed" THEN DoneP("AUTH", form, {}, 501, plain) /\ Keep /\ KeepX
+  ELSE IF form = "malformed" THEN DoneP("AUTH", form, {}, mcode, plain) /\ Keep /\ KeepX     \* bad base64 / cancel: 501, unknown mechanism: 504
   ELSE IF plain /\ ~enc /\ ~KF_PlainAuthNoTls THEN DoneP("AUTH", form, {}, 504, plain) /\ Keep /\ KeepX
   ELSE LET code == Code(v, 235) IN
        /\ DoneP("AUTH", form, {"AUTH"}, code, plain)
